@@ -114,6 +114,45 @@ Shape(ty) == IF ty.k \in {"union", "tuple", "dict", "list", "set", "tupleof"}
              THEN [k |-> ty.k, args |-> [i \in 1..Len(ty.a) |-> ty.a[i].k]]
              ELSE [k |-> ty.k, args |-> <<>>]
 
+\* the decision needs to look inside the value: the type has parameters and the value is of the
+\* outer kind(s) the type admits
+RECURSIVE Erase(_)
+Erase(ty) == CASE ty.k = "list" -> TAnyList
+               [] ty.k = "set" -> TAnySet
+               [] ty.k = "dict" -> TAnyDict
+               [] ty.k \in {"tuple", "tupleof"} -> TAnyTuple
+               [] ty.k = "union" -> TUnion([i \in 1..Len(ty.a) |-> Erase(ty.a[i])])
+               [] OTHER -> ty
+Deep(ty, v) == Len(ty.a) > 0 /\ Matches(Erase(ty), v)
+
+\* ---- an explanatory reading, used ONLY to classify disagreements (never as the expected answer).
+\* typing/ty.rs::Ty::unions normalises a union by merging its list members into one list of the union
+\* of their parameters, and its dict members likewise: list[A] | list[B] becomes list[A | B].  Widen
+\* computes that normal form; a pair with Matches(Widen(ty), v) # Matches(ty, v) is one that this
+\* widening, and nothing else, explains.
+IsListTy(t)  == t.k \in {"list", "anylist"}
+IsDictTy(t)  == t.k \in {"dict", "anydict"}
+IsOtherTy(t) == ~IsListTy(t) /\ ~IsDictTy(t)
+ListParam(t) == IF t.k = "list" THEN t.a[1] ELSE TAny
+DictKey(t)   == IF t.k = "dict" THEN t.a[1] ELSE TAny
+DictVal(t)   == IF t.k = "dict" THEN t.a[2] ELSE TAny
+MkUnion(xs)  == IF Len(xs) = 1 THEN xs[1] ELSE TUnion(xs)
+RECURSIVE FlatMembers(_)
+FlatMembers(xs) == IF Len(xs) = 0 THEN <<>>
+                   ELSE (IF Head(xs).k = "union" THEN Head(xs).a ELSE <<Head(xs)>>) \o FlatMembers(Tail(xs))
+RECURSIVE Widen(_)
+Widen(ty) ==
+  IF ty.k # "union" THEN [ty EXCEPT !.a = [i \in 1..Len(ty.a) |-> Widen(ty.a[i])]]
+  ELSE LET ms == FlatMembers([i \in 1..Len(ty.a) |-> Widen(ty.a[i])])
+           ls == SelectSeq(ms, IsListTy)
+           ds == SelectSeq(ms, IsDictTy)
+           l  == IF Len(ls) <= 1 THEN ls
+                 ELSE <<TList(Widen(TUnion([i \in 1..Len(ls) |-> ListParam(ls[i])])))>>
+           d  == IF Len(ds) <= 1 THEN ds
+                 ELSE <<TDict(Widen(TUnion([i \in 1..Len(ds) |-> DictKey(ds[i])])),
+                              Widen(TUnion([i \in 1..Len(ds) |-> DictVal(ds[i])])))>>
+       IN  MkUnion(SelectSeq(ms, IsOtherTy) \o l \o d)
+
 RECURSIVE TyMentions(_, _)
 TyMentions(ty, names) == (ty.k \in {"rec", "enum"} /\ ty.n \in names)
                          \/ \E i \in 1..Len(ty.a) : TyMentions(ty.a[i], names)
